@@ -32,10 +32,15 @@ def scan_statics():
                 s = ln.strip()
                 if s.startswith("//"):
                     continue
-                if re.search(r"\b(static|thread_local!|lazy_static!|static mut)\b", s) and not re.search(r"&'static|'static str", s.split("static")[0] + "x") or \
-                        re.search(r"\b(OnceCell|OnceLock|AtomicU|AtomicI|AtomicBool|AtomicPtr|unsafe)\b", s):
-                    if re.match(r"(pub\s+)?static\b|thread_local!|lazy_static!", s) or re.search(r"\b(OnceCell|OnceLock|Atomic\w+|unsafe)\b", s):
+                # state that can differ between two moments of a process: `static mut`, a static whose type can change or is filled
+                # at run time, thread-locals, once-cells, atomics, unsafe code.  A plain immutable `static X: &str / [u8; N] / u32` is
+                # a constant and of no interest here.
+                m = re.match(r"(pub(\([^)]*\))?\s+)?static\s+(mut\s+)?\w+\s*:\s*(.*)", s)
+                if m:
+                    if m.group(3) or re.search(r"Mutex|RwLock|Cell|Atomic|Once|Lazy|Rc<|Arc<", m.group(4)):
                         statics.append("%s: %s" % (rel, s))
+                elif re.match(r"thread_local!|lazy_static!", s) or re.search(r"\b(OnceCell|OnceLock|Atomic\w+|unsafe)\b", s):
+                    statics.append("%s: %s" % (rel, s))
                 for m in MAPS:
                     if re.search(r"\b%s\b[^;]*\.(iter|iter_mut|keys|values|values_mut|drain|into_iter)\(" % m, s) or re.search(r"for\s+.*\bin\s+.*\b%s\b" % m, s):
                         iters.append("%s: %s" % (rel, s))
@@ -96,4 +101,4 @@ match_known = P.match_known
 
 
 def replay(path):
-    return P.replay_text(PROP, path, lambda vh, exe, i: None)
+    return P.replay_by_rerun(PROP, path)
